@@ -44,6 +44,85 @@ def gen_ws_case(rng):
     return f"ws.read frames={','.join(frames)} calls={','.join(calls)}", payloads
 
 
+def gen_ws_write_case(rng):
+    """chunks the engine hands to the stream (one service batch each) and how the socket under the websocket takes writes"""
+    nchunks = rng.choice([1, 1, 2, 3, 6])
+    chunks = []
+    for _ in range(nchunks):
+        ln = rng.choice([1, 2, 5, 31, 125, 126, 127, 300, 4096])
+        chunks.append(bytes(rng.randint(0, 255) for _ in range(ln)))
+    plan = []
+    for _ in range(rng.choice([0, 1, 2, 4, 8, 16])):
+        c = rng.random()
+        if c < 0.45:
+            plan.append(f"a{rng.choice([1, 2, 3, 5, 6, 7, 10, 64, 130, 5000])}")
+        elif c < 0.93:
+            plan.append("b")
+        else:
+            plan.append("e")
+    return "ws.write chunks=" + ",".join(hexs(c) for c in chunks) + (" wplan=" + ",".join(plan) if plan else ""), chunks
+
+
+def suite_ws_write(report, tier, seed, prop="C13"):
+    """the write side of the websocket adapter: whatever the socket does (partial writes, would-block, failure) the server
+    decodes exactly the chunks the adapter reported as taken, once, in order"""
+    rng = Rng(seed, "ws-write")
+    n = 200 if tier == "quick" else 8000
+    cases = [gen_ws_write_case(rng) for _ in range(n)]
+    # regression corpus: a socket that takes part of the frame and then would block (the bytes used to be sent twice)
+    cases = [("ws.write chunks=x0102030405060708 wplan=a5,b", [bytes(range(1, 9))]),
+             ("ws.write chunks=x0102030405060708,x090a wplan=b,b,a3,b,a100", [bytes(range(1, 9)), bytes([9, 10])])] + cases
+    reqs = [c[0] for c in cases]
+    impl = harness_batch(reqs)
+    model = driver_batch(reqs)
+    corr_ok, mon_ok = True, True
+    for (req, chunks), a, b in zip(cases, impl, model):
+        report.case(req)
+        report.traces_validated += 1
+        if a != b:
+            corr_ok = False
+            report.add_finding(Finding(prop, "corr:ws-write", {"clause": "model-vs-impl", "verb": "ws.write"}, "websocket write adapter: implementation and model disagree",
+                                       [req, "# impl:  " + a[:400], "# model: " + b[:400]], has_input=False))
+        fa, _ = resp_fields(a)
+        if fa.get("res") != "ok":
+            mon_ok = False
+            report.add_finding(Finding(prop, "mon:ws-write", {"clause": "panic" if "panic" in fa.get("res", "") else "failed"}, "websocket write adapter failed: " + a[:120], [req]))
+            continue
+        calls = [c for c in fa.get("calls", "").split(",") if c]
+        # what the adapter told its caller it had taken, chunk by chunk (the caller offers the remainder of a chunk again
+        # after a would-block and moves on after Ok(n))
+        taken = b""
+        ci, off = 0, 0
+        failed = False
+        for c in calls:
+            kind, res = c.split(":")
+            report.count(f"ws-write.{kind}.{'n' if res.isdigit() else res}")
+            if kind == "w" and res.isdigit():
+                k = int(res)
+                taken += chunks[ci][off:off + k]
+                off += k
+                if off >= len(chunks[ci]):
+                    ci, off = ci + 1, 0
+            elif res == "e" or res.startswith("overrun") :
+                failed = True
+        got = unhex(fa.get("payload", "x"))
+        flushed = bool(calls) and calls[-1] == "f:ok"
+        bad = None
+        if not taken.startswith(got):
+            k = next((i for i in range(min(len(got), len(taken))) if got[i] != taken[i]), min(len(got), len(taken)))
+            bad = ("duplicated-or-reordered", f"the server decodes {len(got)} payload bytes, the adapter reported {len(taken)} bytes as written; they differ at offset {k} "
+                                              f"(server {got[max(0, k - 4):k + 8].hex()}, written {taken[max(0, k - 4):k + 8].hex()})")
+        elif flushed and got != taken:
+            bad = ("lost", f"after a successful flush the server has decoded {len(got)} of the {len(taken)} bytes the adapter reported as written")
+        elif not failed and not flushed and len(calls) < 64:
+            bad = ("stuck", "the write loop ended without a successful flush although the socket did not fail")
+        if bad:
+            mon_ok = False
+            report.add_finding(Finding(prop, "mon:ws-write", {"clause": bad[0]}, "websocket write adapter: " + bad[1], [req, "# impl: " + a[:400]]))
+    report.obligation("corr:ws-write", "correspondence", corr_ok, f"{len(reqs)} scripted write sessions through the real WebsocketStreamWrapper over a socket with partial writes, would-block and failures")
+    report.obligation("mon:ws-write", "monitor", mon_ok, "payload a server decodes = the bytes the adapter reported as written: a prefix at any time, all of them after a successful flush, never twice")
+
+
 def suite_ws(report, tier, seed, prop="C13"):
     rng = Rng(seed, "ws")
     n = 150 if tier == "quick" else 6000
@@ -181,6 +260,9 @@ def gen_fidelity(rng, i):
     steps.append(f"waitwire:{1 + len(ops)}")
     steps.append("waitdone:4000")
     head = f"drv.run kind={kind} v={v}" + (f" wplan={','.join(wplan)}" if wplan else "") + (f" rplan={','.join(rplan)}" if rplan else "")
+    if kind == "threaded" and rng.chance(0.4):
+        # a buffering transport (TLS, websocket) over a non-blocking socket: flush reports would-block a few times
+        head += " fplan=" + ",".join(["b"] * rng.choice([1, 2, 5]))
     return head + " | " + ";".join(steps), v, ops, kind
 
 
@@ -213,7 +295,8 @@ def suite_fidelity(report, tier, seed, prop="C13"):
     cases = [gen_fidelity(rng, i) for i in range(n)]
     # regression corpus: partial write, stall, another event source fires while the write is pending
     cases = [("drv.run kind=tokio v=5 wplan=a5,b | start;waitblocked;pub:1:0;sleep:20;release;waitdone:4000", 5, [("pub", 1, 0, 0)], "tokio"),
-             ("drv.run kind=threaded v=5 wplan=a5,b | start;waitblocked;pub:1:0;sleep:20;release;waitdone:4000", 5, [("pub", 1, 0, 0)], "threaded")] + cases
+             ("drv.run kind=threaded v=5 wplan=a5,b | start;waitblocked;pub:1:0;sleep:20;release;waitdone:4000", 5, [("pub", 1, 0, 0)], "threaded"),
+             ("drv.run kind=threaded v=5 fplan=b,b | start;waitwire:1;sleep:20;pub:1:0;waitwire:2;waitdone:4000", 5, [("pub", 1, 0, 0)], "threaded")] + cases
     impl = harness_batch([c[0] for c in cases])
     mreqs, spans = [], []
     for req, v, ops, kind in cases:
